@@ -110,7 +110,7 @@ fn fields(r: Ranking) -> (u8, u8) {
         Ranking::HighCard(a) | Ranking::OnePair(a) | Ranking::ThreeOAK(a) | Ranking::Straight(a)
         | Ranking::Flush(a) | Ranking::FourOAK(a) | Ranking::StraightFlush(a) => (rank_u8(a), 0),
         Ranking::TwoPair(a, b) | Ranking::FullHouse(a, b) => (rank_u8(a), rank_u8(b)),
-        Ranking::MAX => (0, 0),
+        _ => (0, 0), // the showdown's sentinel variant, if the enum has one
     }
 }
 /// position of the variant in the derived order, measured with the real `Ord`
@@ -118,7 +118,7 @@ fn variant_index(r: Ranking) -> usize {
     let two = Rank::Two;
     let mins = [Ranking::HighCard(two), Ranking::OnePair(two), Ranking::TwoPair(two, two), Ranking::ThreeOAK(two),
         Ranking::Straight(two), Ranking::FullHouse(two, two), Ranking::Flush(two), Ranking::FourOAK(two),
-        Ranking::StraightFlush(two), Ranking::MAX];
+        Ranking::StraightFlush(two)];
     mins.iter().filter(|m| **m <= r).count() - 1
 }
 // the ranking (private field of Strength) is read through the public Evaluator::find_ranking, the
